@@ -2,7 +2,8 @@
    Only statements; every proof is `exact <lemma>`; examples by computation. *)
 From Coq Require Import List ZArith QArith Qcanon Bool Arith Sorted.
 From Dimod Require Import Base.Util Model.Poly Model.Comb Model.Penalty Model.CqmBqm Model.ChkC16
-  Proofs.PolyFacts Proofs.CombFacts Proofs.PenaltyEq Proofs.PenaltySlack Proofs.CqmBqmFacts Proofs.ChkC16Facts Proofs.PenaltyLog10 Model.DqmAdj Proofs.DqmAdjFacts Proofs.PenaltyGen Proofs.PenaltyDqmCz Proofs.QmToBqmFacts.
+  Proofs.PolyFacts Proofs.CombFacts Proofs.PenaltyEq Proofs.PenaltySlack Proofs.CqmBqmFacts Proofs.ChkC16Facts Proofs.PenaltyLog10 Model.DqmAdj Proofs.DqmAdjFacts Proofs.PenaltyGen Proofs.PenaltyDqmCz Proofs.QmToBqmFacts
+  Model.Log10 Model.DqmIneqGen Proofs.DqmIneqGenFacts.
 Import ListNotations.
 
 (* ================================================================== *)
@@ -146,6 +147,38 @@ Theorem C16_generated_plan_plain :
   forall (a : list Z) (const lb ub : Z), plan_inequality_g false a const lb ub = plan_inequality a const lb ub.
 Proof. exact plan_inequality_g_plain. Qed.
 Print Assumptions C16_generated_plan_plain.
+
+(* DQM.add_linear_inequality_constraint, the Python side, written ONLY with the rules generated from
+   discrete_quadratic_model.py (Gen/Gen_DqmIneq.v: bound tightening, always-feasible test, refusal, equality
+   shortcut and its constant, cross_zero test, the cases of every slack variable for log2 / log10 / linear):
+   the same decision as plan_inequality and the slack variables dqm_slack_values_cz the DQM theorems are about *)
+Theorem C16_dqm_generated_plan_is_plan :
+  forall (m : slack_method) (cz : bool) (a : list Z) (const lb ub : Z),
+    plan_dqm_inequality_g m cz a const lb ub
+    = match plan_inequality a const lb ub with
+      | Skip => DSkip
+      | Infeasible => DInfeasible
+      | Equality ubc => DEquality (- ubc)
+      | Slack ubc _ =>
+          DSlack (- ubc)
+            (dqm_slack_values_cz m (Z.min (sum_pos a) (ub - const) - Z.max (sum_neg a) (lb - const)) ubc
+               (dqm_cz_active cz (lbc_of a const lb) ubc))
+      end.
+Proof. exact plan_dqm_inequality_g_eq. Qed.
+Print Assumptions C16_dqm_generated_plan_is_plan.
+
+Theorem C16_dqm_generated_slack_values :
+  forall (m : slack_method) (U ubc : Z) (zero : bool), (0 < U)%Z ->
+    dqm_slack_values_g m U ubc zero = dqm_slack_values_cz m U ubc zero.
+Proof. exact dqm_slack_values_g_eq. Qed.
+Print Assumptions C16_dqm_generated_slack_values.
+
+(* int(np.ceil(np.log10(n))) as modelled: the least d with n <= 10^d *)
+Theorem C16_ceil_log10_spec :
+  forall n : Z, (2 <= n)%Z ->
+    exists d, ceil_log10 n = S d /\ (10 ^ Z.of_nat d < n <= 10 ^ Z.of_nat (S d))%Z.
+Proof. exact ceil_log10_spec. Qed.
+Print Assumptions C16_ceil_log10_spec.
 
 Theorem C16_generated_slack_coeffs :
   forall U : Z, (0 < U)%Z -> slack_coeffs_g U = slack_coeffs U.
